@@ -30,7 +30,8 @@ META = {
                   "stated limit: negative counts must fail without allocation, counts beyond the input must fail "
                   "with at most a capped pre-allocation. Bodies of arrays longer than 2048 bytes are compared by the "
                   "harness (opaque to TLC), their length prefixes and byte counts are judged by TLC. Values are "
-                  "boundary classes plus random samples, not the full int32/int64 ranges.",
+                  "boundary classes plus random samples, not the full int32/int64 ranges. The quick tier model-checks "
+                  "every 23rd 8/16-bit value and VarInt of -70000..70000 plus all boundary values; thorough all of them.",
     "technique": "TLA+ reference operators, TLC exhaustive self-check + vector export, TLC trace validation of "
                  "recorded real I/O",
 }
